@@ -1,6 +1,6 @@
 (* StoreCatalog.v — model of store creation/removal (property C12).
    Transcribed from common/managebtree.go (NewBtree), common/twophasecommittransaction2.go
-   (Transaction.rollback: the addActivelyPersistedItem branch and the createStore branch),
+   (Transaction.rollback: the addActivelyPersistedItem branch and the createStore branch, both of which remove the stores the transaction created),
    fs/storerepository.go (Add: unique-name check and writes under the store-list lock; Remove),
    infs/managebtree.go (RemoveBtree = StoreRepository.Remove).  Definitions only. *)
 From Coq Require Import List ZArith NArith Bool.
@@ -51,11 +51,12 @@ Definition new_btree (c : catalog) (n : N) (opts : Z) : catalog * outcome :=
 
 (* Transaction.rollback as far as the catalog is concerned, for a transaction that created [n] and
    whose logger.committedState is [cs]:
-     if cs == addActivelyPersistedItem { delete the items' values; remove logs; return }   <- no store removal
+     if cs == addActivelyPersistedItem { delete the items' values; remove the created stores;
+                                         remove logs; return }
      ...
      if cs >= createStore { for created stores: StoreRepository.Remove } *)
 Definition txn_rollback (cs : Z) (c : catalog) (created : list N) : catalog :=
-  if Z.eqb cs addActivelyPersistedItem then c
+  if Z.eqb cs addActivelyPersistedItem then fold_left sr_remove created c
   else if createStore <=? cs then fold_left sr_remove created c
   else c.
 
@@ -135,5 +136,5 @@ Fixpoint commit_loop (rs : list round) (c : catalog) (created : list N) : catalo
 Definition round_state_ok (r : round) : Prop :=
   match r with
   | RoundCommitted => True
-  | RoundError s | RoundConflict s _ => createStore <= s /\ s <> addActivelyPersistedItem
+  | RoundError s | RoundConflict s _ => createStore <= s
   end.
